@@ -26,7 +26,7 @@ RULE = (
     "prepared data holds each segment's cell labels at every depth.  Non-trivial: paths with >= 2 inside "
     "intervals, touching a hole, or with 3 waypoints."
     ' Also: datasets at 60N and 72S, every 3-waypoint path again with a third ordinate, lazily loaded (dask) variables, column-major variables and variables with their dimensions stored in reverse.'
-    " Also (operation sequences, mc/sequences.py): for 8 base datasets and every sequence `first [middle] query` over 36 operations (queries, in-place edits a user makes, transforms whose result is used next; quick length 2, thorough length 3) ending in one of this property's own queries, the answer on the one used object equals the answer on a never-used rebuild. Second phase: the first case of every distinct outcome and kind (thorough: every case, for expensive checks every kind) again with debug logging enabled, under numpy.errstate(all='ignore'), and in python -O child interpreters."
+    " Also (operation sequences, mc/sequences.py): for 8 base datasets and every sequence `first [middle] query` over 36 operations (queries, in-place edits a user makes, transforms whose result is used next; quick length 2, thorough length 3, and for this property length 4 `first m1 m2 query` wherever m1 or m2 is an in-place edit) ending in one of this property's own queries, the answer on the one used object equals the answer on a never-used rebuild. Second phase: the first case of every distinct outcome and kind (thorough: every case, for expensive checks every kind) again with debug logging enabled, under numpy.errstate(all='ignore'), and in python -O child interpreters."
 )
 LEVEL_TEXT = ("all 2- and 3-waypoint simple polylines over 8 dataset-derived waypoints on 6 datasets: segment/cell identity, "
               "order, exact coverage of path ∩ cells, additive lengths, per-depth values")
